@@ -28,7 +28,16 @@ class AbsNode:
 
 
 class AbsClsRef:
-    """type(expr) / an entry of its __mro__"""
+    """type(expr) / an entry of its __mro__; one object per class, so that
+    `cls is primitives.Expression` reads as it does in Python"""
+    _cache = {}
+
+    def __new__(cls, pycls):
+        r = cls._cache.get(pycls)
+        if r is None:
+            r = object.__new__(cls)
+            cls._cache[pycls] = r
+        return r
 
     def __init__(self, pycls):
         self.pycls = pycls
@@ -178,6 +187,8 @@ def judge(fn, cached=False, skip_own=False, module_tree=None, class_node=None,
                 if v is None:
                     raise Raised(node)
                 return v
+            if isinstance(base, Opaque) and attr == "Expression":
+                return AbsClsRef(_Expr)     # primitives.Expression, the root
             return Opaque(ast.unparse(node))
 
         def _fallback(mp, expr, *a, **k):
